@@ -13,6 +13,13 @@
 (*             point may admit the input to its store                      *)
 (*   Reject    the entry point returns an error                            *)
 (*                                                                         *)
+(*   Redeliver the node itself hands a REFUSED input to the same entry      *)
+(*             point again: entry points that are subscribers of the DAG   *)
+(*             (payload receivers) are retried with back-off, replayed at  *)
+(*             start-up and on reprocess.  Every redelivery is a call like *)
+(*             any other: it must be replied, and a refusal must leave the *)
+(*             store unchanged again.                                      *)
+(*                                                                         *)
 (* A panic or a missed deadline is NOT an action of this specification:    *)
 (* after Call only Accept or Reject can follow (totality).  In the trace   *)
 (* specification (TraceRobust.tla) a call event that is not followed by    *)
@@ -33,7 +40,8 @@ CONSTANTS
     Hist               \* TRUE: record the action history (behaviour generation)
 
 CONSTANTS Applicable(_, _, _),   \* which (entry point, operator, position) combinations exist
-          Stateful(_)            \* entry points that write a store
+          Stateful(_),           \* entry points that write a store
+          Redelivered(_)         \* entry points behind the DAG notifier: a refused input is delivered again
 
 None == "none"
 NoCase == [ep |-> None, op |-> None, pos |-> None]   \* no call in progress
@@ -45,23 +53,31 @@ VARIABLES
     calls,     \* number of calls made so far
     lost,      \* a call never got its reply (only the trace specification can set it)
     last,      \* verdict of the last completed call
+    again,     \* the input the notifier will deliver again (refused by a subscriber entry point), or NoCase
     hist
 
-vars == <<store, pending, calls, lost, last, hist>>
-view == <<store, pending, calls, lost, last>>
+vars == <<store, pending, calls, lost, last, again, hist>>
+view == <<store, pending, calls, lost, last, again>>
 
 Log(e) == hist' = IF Hist THEN Append(hist, e) ELSE hist
 
 Init ==
     /\ store = [e \in EntryPoints |-> {}]
-    /\ pending = NoCase /\ calls = 0 /\ lost = FALSE /\ last = None
+    /\ pending = NoCase /\ calls = 0 /\ lost = FALSE /\ last = None /\ again = NoCase
     /\ hist = <<>>
 
 Call(c) ==
     /\ pending = NoCase /\ calls < MaxCalls /\ c \in Cases
     /\ pending' = c /\ calls' = calls + 1
     /\ Log([a |-> "Call", ep |-> c.ep, op |-> c.op, pos |-> c.pos])
-    /\ UNCHANGED <<store, lost, last>>
+    /\ UNCHANGED <<store, lost, last, again>>
+
+\* the notifier's retry / start-up replay / reprocess of an input its receiver refused
+Redeliver ==
+    /\ pending = NoCase /\ calls < MaxCalls /\ again # NoCase
+    /\ pending' = again /\ calls' = calls + 1
+    /\ Log([a |-> "Redeliver", ep |-> again.ep, op |-> again.op, pos |-> again.pos])
+    /\ UNCHANGED <<store, lost, last, again>>
 
 Admit(c) == [store EXCEPT ![c.ep] = @ \cup {c}]
 
@@ -69,6 +85,7 @@ Accept ==
     /\ pending # NoCase
     /\ store' = IF Stateful(pending.ep) THEN Admit(pending) ELSE store
     /\ pending' = NoCase /\ last' = "accept"
+    /\ again' = IF again = pending THEN NoCase ELSE again
     /\ Log([a |-> "Accept"])
     /\ UNCHANGED <<calls, lost>>
 
@@ -77,10 +94,11 @@ Reject ==
     /\ \/ UNCHANGED store
        \/ RejectMayWrite /\ Stateful(pending.ep) /\ store' = Admit(pending) /\ store' # store
     /\ pending' = NoCase /\ last' = "reject"
+    /\ again' = IF Redelivered(pending.ep) THEN pending ELSE again
     /\ Log([a |-> "Reject"])
     /\ UNCHANGED <<calls, lost>>
 
-Next == (\E c \in Cases : Call(c)) \/ Accept \/ Reject
+Next == (\E c \in Cases : Call(c)) \/ Redeliver \/ Accept \/ Reject
 
 Spec == Init /\ [][Next]_vars
 FairSpec == Spec /\ WF_vars(Accept \/ Reject)
@@ -92,12 +110,15 @@ TypeOK ==
     /\ pending \in Cases \cup {NoCase}
     /\ \A e \in EntryPoints : store[e] \subseteq Cases
     /\ last \in {None, "accept", "reject"} /\ lost \in BOOLEAN
+    /\ again \in Cases \cup {NoCase}
 
 \* a reply that rejects leaves the stored state unchanged
 IsRejectStep == pending # NoCase /\ pending' = NoCase /\ last' = "reject"
 RejectLeavesStore == [][IsRejectStep => UNCHANGED store]_vars
 \* only stateful entry points ever hold state, and only admitted inputs are in it
 StoreOnlyAdmitted == \A e \in EntryPoints : (~Stateful(e) => store[e] = {}) /\ (\A c \in store[e] : c.ep = e)
+\* only inputs of subscriber entry points are ever delivered again
+RedeliveryOnlyBehindNotifier == again # NoCase => Redelivered(again.ep)
 \* totality, safety half: no call is ever lost (a panic / hang has no action here; the trace spec records it as lost)
 Totality == ~lost
 \* totality, liveness half: every call gets its reply
